@@ -181,12 +181,22 @@ def gen_curve_curve(ctx, count, max_deg=4):
         n1, n2 = rng.randint(2, max_deg), rng.randint(2, max_deg)
         if n1 * n2 > 16:
             continue
-        fam = rng.choice(["random", "lattice", "touching-end", "touching-end", "planted"])
+        fam = rng.choice(["random", "lattice", "touching-end", "touching-end", "planted", "near-parallel"])
         if fam == "random":
             c1, c2 = rand_curve(rng, n1, 4, 1), rand_curve(rng, n2, 4, 1)
         elif fam == "lattice":
             c1 = [[F(rng.randint(0, 4)) for _ in range(n1 + 1)] for _ in range(2)]
             c2 = [[F(rng.randint(0, 4)) for _ in range(n2 + 1)] for _ in range(2)]
+        elif fam == "near-parallel":
+            # the second curve is the first one turned by a small angle (tan = 1/16 or 1/8, sine well above 2^-7) about one of
+            # its own points: the curves run close together over their whole length (many candidate pairs: the pruning above
+            # 64 candidates is exercised) and cross transversally at the pivot
+            n2 = n1
+            c1 = rand_curve(rng, n1, 4, 1)
+            a = F(rng.randint(1, 7), 8)
+            px, py = oq.bernstein(c1[0], a), oq.bernstein(c1[1], a)
+            e = F(1, rng.choice([8, 16])) * rng.choice([1, -1])
+            c2 = [[px + (x - px) - e * (y - py) for x, y in zip(c1[0], c1[1])], [py + e * (x - px) + (y - py) for x, y in zip(c1[0], c1[1])]]
         elif fam == "touching-end":
             # first curve left of / below the meeting point, second right of / above it: the boxes touch in a corner or an edge
             px, py = F(rng.randint(-2, 2)), F(rng.randint(-2, 2))
